@@ -38,10 +38,13 @@ const (
 	kSeq
 	kClock
 	kConflict
+	kFid  // FEC sequence id (wraps at paws, a multiple of the group size)
+	kGid  // FEC group id = fid / group size
+	kPaws // the FEC wrap value
 )
 
 func (k kindT) String() string {
-	return [...]string{"plain", "seq", "clock", "seq+clock"}[k]
+	return [...]string{"plain", "seq", "clock", "mixed", "fecid", "fecgroup", "paws"}[k]
 }
 
 func joinKind(a, b kindT) kindT {
@@ -67,6 +70,12 @@ func parseKindName(s string) kindT {
 		return kSeq
 	case "clock":
 		return kClock
+	case "fecid":
+		return kFid
+	case "fecgroup":
+		return kGid
+	case "paws":
+		return kPaws
 	}
 	return kNone
 }
@@ -176,7 +185,7 @@ func (kp *kindPass) runFunc(fn *ssa.Function) {
 				if strings.HasPrefix(akey, "field:") {
 					if ak != kNone || k != kNone {
 						_, isConst := i.Val.(*ssa.Const)
-						good := ak == k || (k == kNone && isConst) || (ak != kNone && k == kNone && kp.plainOK(i.Val))
+						good := ak == k || (k == kNone && isConst) || (ak != kNone && k == kNone && kp.plainOK(i.Val)) || ak == kPaws
 						if ak == kNone && k != kNone {
 							good = !isU32(i.Val.Type()) || false
 						}
@@ -210,8 +219,8 @@ func (kp *kindPass) runFunc(fn *ssa.Function) {
 					same := isU32(i.Type())
 					if same {
 						kp.setVal(i, k)
-					} else if !exempt {
-						kp.report(fn, i.Pos(), fmt.Sprintf("conversion of a %s value to %s", k, i.Type()), false)
+					} else if !exempt && k != kPaws {
+						kp.report(fn, i.Pos(), fmt.Sprintf("conversion of a %s value to %s", k, i.Type()), onlyStats(i))
 					}
 				}
 			case *ssa.BinOp:
@@ -225,7 +234,8 @@ func (kp *kindPass) runFunc(fn *ssa.Function) {
 					}
 				case token.SUB:
 					if kx != kNone && ky != kNone {
-						kp.report(fn, i.Pos(), fmt.Sprintf("difference of a %s and a %s value", kx, ky), kx == ky)
+						// group ids wrap at paws / group size, not at 2^32: their difference is not wrap-safe
+						kp.report(fn, i.Pos(), fmt.Sprintf("difference of a %s and a %s value", kx, ky), kx == ky && kx != kGid)
 						// result: an unkinded duration / distance
 					} else if kx != kNone {
 						kp.setVal(i, kx)
@@ -235,11 +245,17 @@ func (kp *kindPass) runFunc(fn *ssa.Function) {
 				case token.MUL:
 					if kx != kNone && ky != kNone {
 						kp.report(fn, i.Pos(), "product of two wrap-around values", false)
+					} else if joinKind(kx, ky) == kGid {
+						kp.setVal(i, kFid) // group id scaled by the group size: back in the id space
 					} else {
 						kp.setVal(i, joinKind(kx, ky))
 					}
 				case token.LSS, token.LEQ, token.GTR, token.GEQ:
-					if (kx != kNone || ky != kNone) && !exempt {
+					if (kx == kFid && ky == kPaws) || (kx == kPaws && ky == kFid) {
+						kp.report(fn, i.Pos(), "range test of a FEC id against the wrap value", true)
+					} else if kx == kPaws || ky == kPaws {
+						// the wrap value itself is an ordinary number
+					} else if (kx != kNone || ky != kNone) && !exempt {
 						kp.report(fn, i.Pos(), fmt.Sprintf("ordered comparison %s of a %s and a %s value (must go through _itimediff)", i.Op, kx, ky), false)
 					}
 				case token.EQL, token.NEQ:
@@ -247,7 +263,16 @@ func (kp *kindPass) runFunc(fn *ssa.Function) {
 						kp.report(fn, i.Pos(), fmt.Sprintf("equality of a %s and a %s value", kx, ky), kx == ky)
 					}
 				case token.QUO, token.REM, token.SHL, token.SHR, token.AND, token.OR, token.XOR, token.AND_NOT:
-					if (kx != kNone || ky != kNone) && !exempt {
+					if kx == kPaws || (kx == kNone && ky == kPaws) {
+						break
+					}
+					if kx == kFid && i.Op == token.REM && ky == kPaws {
+						kp.setVal(i, kFid) // reduction modulo the wrap value
+					} else if kx == kFid && i.Op == token.REM && ky == kNone {
+						kp.report(fn, i.Pos(), "position of a FEC id in its group (id % group size)", true)
+					} else if kx == kFid && i.Op == token.QUO && ky == kNone {
+						kp.setVal(i, kGid)
+					} else if (kx != kNone || ky != kNone) && !exempt {
 						kp.report(fn, i.Pos(), fmt.Sprintf("operator %s applied to a %s / %s value", i.Op, kx, ky), false)
 					}
 				}
@@ -259,6 +284,28 @@ func (kp *kindPass) runFunc(fn *ssa.Function) {
 			}
 		}
 	}
+}
+
+// onlyStats: the converted value is only handed to sync/atomic (statistics counters).
+func onlyStats(c *ssa.Convert) bool {
+	refs := c.Referrers()
+	if refs == nil || len(*refs) == 0 {
+		return false
+	}
+	for _, r := range *refs {
+		call, ok := r.(*ssa.Call)
+		if !ok {
+			if _, isDbg := r.(*ssa.DebugRef); isDbg {
+				continue
+			}
+			return false
+		}
+		f := call.Common().StaticCallee()
+		if f == nil || f.Pkg == nil || f.Pkg.Pkg.Path() != "sync/atomic" {
+			return false
+		}
+	}
+	return true
 }
 
 func valueOf(in ssa.Instruction) ssa.Value {
